@@ -52,12 +52,14 @@ def r20_1(ctx):
     fi = f("cleanup_macros")
     ctx.check("cleanup_macros inputs", getpaths(fi.node) == ["HEXAGON_PP_MACROS_INC", "HEXAGON_PP_MACROS_H", "HEXAGON_PP_MACROS_MMVEC_H"], "macros.inc, macros.h, macros_mmvec.h", str(getpaths(fi.node)), fn_where(idx, fi))
     fi = f("preprocess_macros")
-    opens = [(U(n.args[0]), U(n.args[1]) if len(n.args) > 1 else "'r'") for n in ast.walk(fi.node) if isinstance(n, ast.Call) and call_name(n) == "open"]
-    writes = [U(n) for n in ast.walk(fi.node) if isinstance(n, ast.Call) and call_tail(n) == "writelines"]
-    ctx.check("preprocess_macros writes patch_macros(cleanup_macros()) to the patched macro file",
-              opens == [("Conf.get_path(InputFile.HEXAGON_PP_MACROS_PATCHED_H)", "'w'")] and writes == ["f.writelines('\\n'.join(self.patch_macros(m)))"] and any(
-                  isinstance(n, ast.Assign) and U(n.value) == "self.cleanup_macros()" and U(n.targets[0]) == "m" for n in ast.walk(fi.node)),
-              "open(MACROS_PATCHED, 'w').writelines('\\n'.join(patch_macros(cleanup_macros())))", f"{opens} {writes}", fn_where(idx, fi))
+    # (read off the path events, in which local names are replaced by what they were bound to)
+    pths = [q for q in paths_of(fi.node) if q.outcome != "raise"]
+    got = []
+    for q in pths:
+        got.append(sorted(U(e.node) for e in q.events if e.kind == "call" and isinstance(e.node, ast.Call) and call_tail(e.node) in ("writelines", "write")))
+    want = ["open(Conf.get_path(InputFile.HEXAGON_PP_MACROS_PATCHED_H), 'w').writelines('\\n'.join(self.patch_macros(self.cleanup_macros())))"]
+    ctx.check("preprocess_macros writes patch_macros(cleanup_macros()) to the patched macro file", bool(pths) and all(g == want for g in got),
+              "open(MACROS_PATCHED, 'w').writelines('\\n'.join(patch_macros(cleanup_macros())))", str(got)[:200], fn_where(idx, fi))
     fi = f("patch_macros")
     ctx.check("patch_macros reads the patch file", getpaths(fi.node) == ["HEXAGON_PP_PATCHES_MACROS_H"], "patches_macros.h", str(getpaths(fi.node)), fn_where(idx, fi))
     fi = f("preprocess_shortcode")
@@ -110,7 +112,22 @@ def r20_2(ctx):
     w = fn_where(idx, fi)
     pats = [pattern_text(c.args[0]) for c in find_re_call(fi.node, names=("search", "match"), idx=idx, cls=PP)]
     name_pats = [p for p in pats if p and "(" in p]
-    ctx.check("one name regex for patches and originals", len(name_pats) == 2 and len(set(name_pats)) == 1 and name_pats[0] == r"^#define\s+([\w_]*).*", r"^#define\s+([\w_]*).* at both sites", str(name_pats), w)
+    # (evaluated on probe definitions: every name pattern used here extracts the macro's name, the same one at every site)
+    probes = {"#define fFOO(A) (A)": "fFOO", "#define  BAR 1": "BAR", "#define f_x1(A, B) \\": "f_x1", "#define fLSBNEW0 predlog_read(thread,0)": "fLSBNEW0", "#define X": "X",
+              "#define fSATN(N,VAL) fSAT(VAL) /* x */": "fSATN", "#define A1": "A1"}
+    bad = []
+    for pt in name_pats:
+        try:
+            rx_ = re.compile(pt)
+        except re.error as e:
+            bad.append(f"{pt!r}: {e}")
+            continue
+        for text, name in probes.items():
+            m = rx_.search(text)
+            got = m.group(1) if m and m.groups() else None
+            if got != name:
+                bad.append(f"{pt!r} reads {got!r} out of {text!r}")
+    ctx.check("one name regex for patches and originals", 1 <= len(name_pats) <= 2 and not bad, "every site extracts the macro name (the word behind #define) the same way", "; ".join(bad[:3]) or str(name_pats), w)
     ps = paths_of(fi.node)
     loops = [e for p in ps for e in p.events if e.kind == "loop" and U(e.node[2]) == "macros"]
     ctx.need(loops, "patch_macros: loop over the original macros not found")
